@@ -1,0 +1,44 @@
+//go:build verif
+// +build verif
+
+package raft
+
+import (
+	"io"
+
+	hraft "github.com/hashicorp/raft"
+
+	"github.com/dappledger/AnnChain/gemmill/go-wire"
+	"github.com/dappledger/AnnChain/gemmill/state"
+	"github.com/dappledger/AnnChain/gemmill/types"
+)
+
+// Accessors for the model-based check of the raft consensus mode (/verif specs/raftmode, build tag "verif").
+// Nothing here changes behaviour; nothing here is compiled without the tag.
+
+// VerifFSM returns the state machine hashicorp/raft delivers committed entries to.
+func (cs *ConsensusState) VerifFSM() *BlockChainFSM { return cs.fsm }
+
+// VerifRaft returns the raft instance.
+func (cs *ConsensusState) VerifRaft() *hraft.Raft { return cs.rawRaft }
+
+// VerifPropose builds and signs a block exactly as the leader branch of run() does and returns the bytes it
+// hands to rawRaft.Apply.
+func (cs *ConsensusState) VerifPropose() (*types.Block, []byte) {
+	b := cs.fsm.createProposalBlock(cs.privValidator.GetAddress())
+	cs.sign(b)
+	return b, wire.BinaryBytes(b)
+}
+
+// VerifClose shuts the raft instance down (waiting for its goroutines) and releases the files initConfig opened.
+func (cs *ConsensusState) VerifClose() {
+	cs.rawRaft.Shutdown().Error()
+	for _, c := range []interface{}{cs.conf.logStore, cs.conf.stableStore, cs.conf.snapshotLog, cs.conf.transLog, cs.conf.raftLog} {
+		if cl, ok := c.(io.Closer); ok && cl != nil {
+			cl.Close()
+		}
+	}
+}
+
+// VerifState returns the state the FSM currently holds (replaced by a copy after every applied block).
+func (b *BlockChainFSM) VerifState() *state.State { return b.state }
